@@ -410,6 +410,8 @@ def stmt(n):
             return '.pass'
         if isinstance(n, ast.Try):
             # only `try: <ONE assignment or expression statement> except Exception [as e]: ...` (no else / finally): see `PStmt.tryExcept`
+            if n.finalbody and not n.handlers and not n.orelse:
+                return '(.tryFinally %s %s)' % (block(n.body), block(n.finalbody))
             if n.orelse or n.finalbody or len(n.handlers) != 1:
                 raise Unsupported('Try (shape)')
             h = n.handlers[0]
